@@ -41,6 +41,7 @@ pub fn nontrivial_functor(f: &TableFunctor, ds: &[&Diagram]) -> bool {
 }
 
 fn check(t: &mut Tape, ctx: &mut Ctx) -> CheckResult {
+    ctx.cap_medium(260);
     let sz = ctx.sizes;
     let al = gen::alpha(t, &sz);
     let ds = gen::composable(t, &sz, al, 2, ctx);
